@@ -200,7 +200,7 @@ def check_serialize(ctx):
         depth = P("depth", tm.INT if d_int else tm.BYTES)
         child = P("child_no", tm.INT if c_int else tm.BYTES)
         s = ev.run(fi, {"key": key, "chaincode": chain, "depth": depth, "parent_key_fingerprint": fpr, "child_no": child, "testnet": tn})
-        kind, val = rules.decided_outcome(s)
+        kind, val = rules.strict_outcome(s)
         version = {(True, False): VPRV_M, (True, True): VPRV_T, (False, False): VPUB_M, (False, True): VPUB_T}[(key_int, tn)]
         got = payload_of(val, kind)
         label = "key=%s testnet=%s depth=%s child_no=%s" % ("int" if key_int else "point", tn, "int" if d_int else "bytes", "int" if c_int else "bytes")
@@ -235,7 +235,7 @@ def check_serialize(ctx):
     # something that is neither an int nor a pair is refused
     for label, key in (("a 3-tuple", (P("a", tm.INT), P("b", tm.INT), P("c", tm.INT))), ("a bytes key", P("key", tm.BYTES))):
         s = ev.run(fi, {"key": key, "chaincode": chain, "depth": P("depth", tm.INT), "parent_key_fingerprint": fpr, "child_no": P("child_no", tm.INT), "testnet": False})
-        kind, val = rules.decided_outcome(s)
+        kind, val = rules.strict_outcome(s)
         R.check("C09.4", "DOM", fi, "%s is refused" % label, kind == "raise", "serialized_extended_key accepts %s as key (%s)" % (label, kind))
     # root key: through the real serializer, for both key kinds and networks
     fr = ctx.fn(B32 + "root_serialized_extended_key")
@@ -243,7 +243,7 @@ def check_serialize(ctx):
         key = P("master_key", tm.INT) if key_int else (P("Kx", tm.INT), P("Ky", tm.INT))
         mc = P("master_chain_code", tm.BYTES)
         s = ev.run(fr, {fr.params()[0]: key, fr.params()[1]: mc, "testnet": tn})
-        kind, val = rules.decided_outcome(s)
+        kind, val = rules.strict_outcome(s)
         got = payload_of(val, kind)
         version = {(True, False): VPRV_M, (True, True): VPRV_T, (False, False): VPUB_M, (False, True): VPUB_T}[(key_int, tn)]
         head = tm.cat([version + b"\x00" * 9, mc])
@@ -395,7 +395,7 @@ def check_path(ctx):
         private = ver in (VPRV_M, VPRV_T)
         key = P("k", tm.INT) if private else (P("Kx", tm.INT), P("Ky", tm.INT))
         evx.bind = {dterm: (ver, dep, fpr, chn, chain, key)}
-        kx, vx = rules.decided_outcome(evx.run(fx))
+        kx, vx = rules.strict_outcome(evx.run(fx))
         pub = tm.app(B32 + "point", [key], ty=tm.TUPLE) if private else key
         want = tm.app(B32 + "serialized_extended_key", [pub, chain, dep, fpr, chn, ver in (VPRV_T, VPUB_T)], ty=tm.BYTES)
         okx = kx == "return" and (tm.veq(vx, want) or tm.veq(tm.freeze(vx), tm.freeze(want)))
